@@ -66,6 +66,8 @@ func checkC19(r *harness.Run) harness.Coverage {
 	}{
 		{`{"a": {"b": [1, 2]}, "b": "x"}`, "valid"}, {`[{"a": 2, "b": 1}, {"a": 1, "b": 2}]`, "valid"}, {`null`, "valid"}, {`true`, "valid"}, {`1.5`, "valid"}, {`"str"`, "valid"},
 		{`[]`, "valid"}, {`{}`, "valid"}, {`[1, 2, 3]`, "valid"}, {` {"a": [ {"b": 1}, {"b": null} ] } ` + "\n", "valid"}, {`{"a": "é😀", "b": "<&>"}`, "valid"}, {`12345678901234567890`, "valid"}, {`["inf", "1"]`, "valid"},
+		{`{"b": "lit \\u003c here <&>", "a": "\u003c"}`, "valid"},
+		{`{"a": 1}` + strings.Repeat(" ", 32768-8), "valid"}, {strings.Repeat(" ", 65536-4) + `[1]` + "\n", "valid"}, {`[` + strings.Repeat("1,", 16383) + `1]`, "valid"},
 		{``, "invalid"}, {"  \n", "invalid"}, {`{"a": `, "invalid"}, {`{"a": 1} x`, "invalid"}, {`{"a": 1} {"a": 2}`, "invalid"}, {`{'a': 1}`, "invalid"}, {`[1, 2,]`, "invalid"}, {"\xff\xfe", "invalid"}, {`"` + "\xff" + `"`, "as-go-decodes"}, {`1e999`, "as-go-decodes"}, {`nul`, "invalid"},
 	}
 	if !r.Thorough() {
@@ -154,7 +156,7 @@ func checkC19(r *harness.Run) harness.Coverage {
 			}
 			orderDependent[j.ei*len(inputs)+j.ii] = true
 		}
-		in := map[string]interface{}{"expression": e.text, "argv": args, "channel": []string{"-input file", "stdin", "missing file"}[j.ch], "input_text": inText}
+		in := map[string]interface{}{"expression": e.text, "argv": args, "channel": []string{"-input file", "stdin", "missing file"}[j.ch], "input_text": shorten(inText, 200), "input_bytes": len(inText)}
 		if wantOK {
 			atomic.AddInt64(&succ, 1)
 			if stdout != wantOut || status != 0 {
